@@ -208,6 +208,12 @@ def band(inp):
     got = np.asarray(fit.error_band(xs))
     if not np.allclose(got, exp, rtol=2e-3, atol=1e-6):
         return {"got": got, "expected": exp, "witness_class": "band" + (":fixed" if inp["fixed"] else "")}
+    # the same at whole-number positions given as integers: the band is a float quantity whatever the type of x
+    xi = np.array([0, 2, 6])
+    Ji = np.stack([xi.astype(float) ** 2, xi.astype(float), np.ones(3)], axis=1)
+    gi, ei = np.asarray(fit.error_band(xi), dtype=float), np.sqrt(np.einsum("ka,ab,kb->k", Ji, C, Ji))
+    if not np.allclose(gi, ei, rtol=2e-3, atol=1e-6):
+        return {"got": gi, "expected": ei, "witness_class": "band:integer-x" + (":fixed" if inp["fixed"] else "")}
 
 
 sys.exit(R.main())
